@@ -45,10 +45,92 @@ type storOp struct {
 func (o storOp) String() string { return o.Kind + "(" + o.KeyClass + ")" }
 
 func classifyOp(v ssa.Value) (storOp, bool) {
-	call, ok := strip(v).(*ssa.Call)
-	if !ok {
+	ops := classifyOps(v, 0)
+	if len(ops) == 0 {
 		return storOp{}, false
 	}
+	return ops[0], true
+}
+
+// classifyOps resolves an operation value to the storage constructor call(s) it can come from,
+// following parameters to all static call sites and multi-value returns into callees (depth ≤ 3).
+func classifyOps(v ssa.Value, depth int) []storOp {
+	if depth > 3 {
+		return nil
+	}
+	sv := strip(v)
+	switch x := sv.(type) {
+	case *ssa.Call:
+		if op, ok := classifyOpCall(x); ok {
+			return []storOp{op}
+		}
+	case *ssa.Parameter:
+		fn := x.Parent()
+		idx := -1
+		for i, pa := range fn.Params {
+			if pa == x {
+				idx = i
+			}
+		}
+		if idx < 0 || fn.Pkg == nil {
+			return nil
+		}
+		var out []storOp
+		for _, m := range fn.Pkg.Members {
+			_ = m
+		}
+		for _, caller := range pkgFuncs(fn) {
+			for _, ci := range calls(caller, func(ci ssa.CallInstruction) bool { return staticCalleeFn(ci) == fn }) {
+				if idx < len(ci.Common().Args) {
+					out = append(out, classifyOps(ci.Common().Args[idx], depth+1)...)
+				}
+			}
+		}
+		return out
+	case *ssa.Extract:
+		if call, ok := x.Tuple.(*ssa.Call); ok {
+			if cf := staticCalleeFn(call); cf != nil && cf.Blocks != nil {
+				var out []storOp
+				for _, r := range returnsOf(cf) {
+					res := resultsOf(r)
+					if x.Index < len(res) {
+						out = append(out, classifyOps(res[x.Index], depth+1)...)
+					}
+				}
+				return out
+			}
+		}
+	case *ssa.Phi:
+		var out []storOp
+		for _, e := range x.Edges {
+			out = append(out, classifyOps(e, depth+1)...)
+		}
+		return out
+	}
+	return nil
+}
+
+var pkgFuncsCache = map[*ssa.Package][]*ssa.Function{}
+var pkgFuncsProg *Prog
+
+// pkgFuncs: all source functions of fn's package (generic origins).
+func pkgFuncs(fn *ssa.Function) []*ssa.Function {
+	pkg := fn.Pkg
+	if pkg == nil && fn.Origin() != nil {
+		pkg = fn.Origin().Pkg
+	}
+	if pkg == nil || pkgFuncsProg == nil {
+		return nil
+	}
+	if fs, ok := pkgFuncsCache[pkg]; ok {
+		return fs
+	}
+	fs := pkgFuncsProg.AllSrcFuncs(pkgFuncsProg.ByPath[pkg.Pkg.Path()])
+	pkgFuncsCache[pkg] = fs
+	return fs
+}
+
+func classifyOpCall(call *ssa.Call) (storOp, bool) {
 	f := calleeOf(call)
 	if f == nil || f.Pkg() == nil || f.Pkg().Path() != pkgStorage {
 		return storOp{}, false
@@ -105,8 +187,8 @@ func batchCalls(fn *ssa.Function) []batchCall {
 			bc.Full = false
 		}
 		for _, e := range els {
-			if op, ok := classifyOp(e); ok {
-				bc.Ops = append(bc.Ops, op)
+			if ops := classifyOps(e, 0); len(ops) > 0 {
+				bc.Ops = append(bc.Ops, ops...)
 			} else {
 				bc.Full = false
 			}
@@ -175,6 +257,10 @@ type pqAnchors struct {
 }
 
 func findPQ(p *Prog) *pqAnchors {
+	if pkgFuncsProg != p {
+		pkgFuncsProg = p
+		pkgFuncsCache = map[*ssa.Package][]*ssa.Function{}
+	}
 	pk := p.ByPath[pkgQB]
 	if pk == nil {
 		return nil
@@ -248,14 +334,9 @@ func findPQ(p *Prog) *pqAnchors {
 			a.recovery = fn
 		}
 	}
-	if a.finish != nil {
-		for _, fn := range a.methods {
-			if fn == a.dequeue || fn == a.recovery || fn == a.finish {
-				continue
-			}
-			if len(callsTo(fn, funcObj(a.finish))) > 0 {
-				a.complete = fn
-			}
+	for _, fn := range a.methods {
+		if len(callsNamed(fn, func(f *types.Func) bool { return isFunc(f, pkgExperr, "IsShutdownErr") })) > 0 {
+			a.complete = fn
 		}
 	}
 	return a
@@ -265,7 +346,7 @@ func runC01(c *Ctx) {
 	p := c.P
 	a := findPQ(p)
 	c.Rule("R1", "ORD+GATE", "enqueue: Set(item@writeIndex) and Set(write index = writeIndex+1) are operations of the same Batch call; writeIndex++ / size update / success return happen only on that call's err==nil side", 5)
-	if a == nil || a.enqueue == nil || a.dequeue == nil || a.finish == nil || a.complete == nil || a.unref == nil {
+	if a == nil || a.enqueue == nil || a.dequeue == nil || a.complete == nil || a.unref == nil {
 		c.Anchor(fmt.Sprintf("persistent queue (struct with storage.Client field) and its enqueue/dequeue/finish/complete/unref methods: %+v", anchorsState(a)))
 		return
 	}
@@ -419,49 +500,110 @@ func runC01(c *Ctx) {
 	// ----- R3
 	c.Rule("R3", "WHO+GATE", "an item body can be deleted only by: the completion callback on the not-shutdown side of experr.IsShutdownErr(consumer error), the dequeue-failure path, and start-up recovery; the done object forwards the consumer's error unchanged", 5)
 	{
-		for _, fn := range p.AllSrcFuncs(a.pk) {
-			for _, b := range batchCalls(fn) {
-				if b.has("Delete", "") == nil {
-					continue
+		all := p.AllSrcFuncs(a.pk)
+		dyn := map[string]bool{}
+		sites := map[*ssa.Function]int{}
+		for _, fn := range all {
+			allInstrs(fn, func(in ssa.Instruction) {
+				if ci, ok := in.(ssa.CallInstruction); ok {
+					if ci.Common().IsInvoke() {
+						dyn[ci.Common().Method.Name()] = true
+					} else if cf := staticCalleeFn(ci); cf != nil {
+						sites[cf]++
+					}
 				}
-				ok := fn == a.finish || fn == a.recovery
-				c.Check(ok, "Delete batch in "+fnName(fn), p.Pos(b.Call.Pos()), "delete issued by the finish helper / recovery", "an item body is deleted by a function that is neither the dispatch-finish helper nor start-up recovery")
+			})
+		}
+		// functions that (transitively, through static calls) reach a storage delete
+		hasDelete := func(fn *ssa.Function) []ssa.Instruction {
+			var out []ssa.Instruction
+			for _, b := range batchCalls(fn) {
+				if b.has("Delete", "") != nil || !b.Full {
+					if b.has("Delete", "") != nil {
+						out = append(out, b.Call)
+					}
+				}
 			}
 			for _, sc := range storageCalls(fn, "Delete") {
-				c.Bad("direct Delete in "+fnName(fn), p.Pos(sc.Pos()), "direct storage Delete outside the finish helper")
+				out = append(out, sc)
 			}
-			for _, call := range callsTo(fn, funcObj(a.finish)) {
-				site := "finish call in " + fnName(fn)
-				switch fn {
-				case a.dequeue:
-					// failure path: guarded by err != nil (of batch or unmarshal)
-					guarded := false
-					for _, g := range guardsOf(call.Block()) {
-						op, x, y, ok := cmpOf(g)
-						if ok && op == token.NEQ && (isNilConst(x) || isNilConst(y)) {
+			return out
+		}
+		dr := map[*ssa.Function]bool{}
+		for _, fn := range all {
+			if len(hasDelete(fn)) > 0 {
+				dr[fn] = true
+			}
+		}
+		for changed := true; changed; {
+			changed = false
+			for _, fn := range all {
+				if dr[fn] {
+					continue
+				}
+				// the dequeue and completion functions gate their deletes internally (checked below):
+				// reaching them is not reaching an ungated delete
+				for _, ci := range calls(fn, func(ci ssa.CallInstruction) bool {
+					cf := staticCalleeFn(ci)
+					return cf != nil && dr[cf] && cf != a.dequeue && cf != a.complete
+				}) {
+					_ = ci
+					dr[fn] = true
+					changed = true
+					break
+				}
+			}
+		}
+		startup := runLock(p, queueLockClass(p)).Startup
+		check := func(fn *ssa.Function, in ssa.Instruction, what string) {
+			site := what + " in " + fnName(fn)
+			root := rootFn(fn)
+			switch {
+			case root == a.dequeue:
+				guarded := false
+				for _, g := range guardsOf(in.Block()) {
+					op, x, y, ok := cmpOf(g)
+					if ok && op == token.NEQ && (isNilConst(x) || isNilConst(y)) {
+						guarded = true
+					}
+				}
+				c.Check(guarded, site, p.Pos(in.Pos()), "only on the err!=nil side (item could not be read/decoded)", "dequeue deletes the item on a path that is not an error path")
+			case root == a.complete:
+				errParam := lastErrorParam(root)
+				guarded := false
+				for _, g := range guardsOf(in.Block()) {
+					v, br := boolOf(g)
+					if cc, ok := v.(*ssa.Call); ok && isFunc(calleeOf(cc), pkgExperr, "IsShutdownErr") && !br {
+						if errParam != nil && sameValue(cc.Call.Args[0], errParam) {
 							guarded = true
 						}
 					}
-					c.Check(guarded, site, p.Pos(call.Pos()), "only on the err!=nil side (item could not be read/decoded)", "dequeue deletes the item on a path that is not an error path")
-				case a.complete:
-					errParam := lastErrorParam(fn)
-					guarded := false
-					for _, g := range guardsOf(call.Block()) {
-						v, br := boolOf(g)
-						if cc, ok := v.(*ssa.Call); ok && isFunc(calleeOf(cc), pkgExperr, "IsShutdownErr") && !br {
-							if errParam != nil && sameValue(cc.Call.Args[0], errParam) {
-								guarded = true
-							}
-						}
-					}
-					c.Check(guarded, site, p.Pos(call.Pos()), "on the false side of experr.IsShutdownErr(consumeErr)", "the completion callback deletes the item without the shutdown-error guard on the consumer's error: a hand-off interrupted by shutdown loses the request")
-				default:
-					if fn == a.recovery {
-						c.OK(site, p.Pos(call.Pos()), "start-up recovery")
-					} else {
-						c.Bad(site, p.Pos(call.Pos()), "the finish helper (which deletes the item body) is called from a function outside {completion, dequeue-failure, recovery}")
-					}
 				}
+				c.Check(guarded, site, p.Pos(in.Pos()), "on the false side of experr.IsShutdownErr(consumeErr)", "the completion callback deletes the item without the shutdown-error guard on the consumer's error: a hand-off interrupted by shutdown loses the request")
+			case startup[root] || root == a.recovery:
+				c.OK(site, p.Pos(in.Pos()), "start-up recovery (reachable only from Start)")
+			default:
+				obj := root.Object()
+				helper := obj != nil && !dyn[root.Name()] && sites[root] > 0 && (!obj.Exported() || (recvNamedOfFn(root) != nil && !recvNamedOfFn(root).Obj().Exported()))
+				if helper && fn.Parent() == nil {
+					c.OK(site, p.Pos(in.Pos()), "helper: only callable through its static call sites, which are checked themselves")
+				} else {
+					c.Bad(site, p.Pos(in.Pos()), "an item body can be deleted from an entry point outside {completion callback, dequeue-failure path, start-up recovery}")
+				}
+			}
+		}
+		for _, fn := range all {
+			if !dr[fn] {
+				continue
+			}
+			for _, in := range hasDelete(fn) {
+				check(fn, in, "storage delete")
+			}
+			for _, ci := range calls(fn, func(ci ssa.CallInstruction) bool {
+				cf := staticCalleeFn(ci)
+				return cf != nil && dr[cf] && cf != a.dequeue && cf != a.complete
+			}) {
+				check(fn, ci, "call of delete-reaching "+staticCalleeFn(ci).Name())
 			}
 		}
 		// done object forwards the error
@@ -552,15 +694,24 @@ func runC01(c *Ctx) {
 		c.Check(okDefer, "completion releases the client reference on every path", p.Pos(a.complete.Pos()), "unconditional deferred unref in the entry block", "the completion callback does not release its storage-client reference on every path (client leaks or is closed early)")
 	}
 	// ----- R7
-	c.Rule("R7", "LOCK", "every read/write of the persistent queue's mutable fields (readIndex, writeIndex, currentlyDispatchedItems, queueSize, refClient, stopped) happens with the queue mutex must-held", 20)
+	c.Rule("R7", "LOCK", "every read/write of the persistent queue's mutable fields (readIndex, writeIndex, currentlyDispatchedItems, queueSize, refClient, stopped) and every storage call (which serialises that state) happens with the queue mutex must-held", 20)
 	lc := queueLockClass(p)
 	if lc == nil {
 		c.Anchor("queue lock class")
 	} else {
+		lc.MustHoldCall = func(ci ssa.CallInstruction) (string, bool) {
+			cc := ci.Common()
+			if cc.IsInvoke() && cc.Method.Pkg() != nil && cc.Method.Pkg().Path() == pkgStorage && recvNamedInterface(cc.Method) == "Client" {
+				if recvNamedOfFn(rootFn(ci.Parent())) == T.Origin() {
+					return T.Obj().Name() + ". storage." + cc.Method.Name(), true
+				}
+			}
+			return "", false
+		}
 		res := runLock(p, lc)
 		filtered := &lockResult{EntryHeld: res.EntryHeld, Startup: res.Startup, Funcs: res.Funcs}
 		for _, acc := range res.Accesses {
-			if strings.HasPrefix(acc.Key, T.Obj().Name()+".") {
+			if strings.HasPrefix(acc.Key, T.Obj().Name()+".") || strings.HasPrefix(acc.Key, "call "+T.Obj().Name()+".") {
 				filtered.Accesses = append(filtered.Accesses, acc)
 			}
 		}
@@ -745,4 +896,15 @@ func sortedFnNames(m map[*ssa.Function]bool) []string {
 	}
 	sort.Strings(out)
 	return out
+}
+
+func recvNamedInterface(f *types.Func) string {
+	sig, ok := f.Type().(*types.Signature)
+	if !ok || sig.Recv() == nil {
+		return ""
+	}
+	if n := namedOf(sig.Recv().Type()); n != nil {
+		return n.Obj().Name()
+	}
+	return ""
 }
